@@ -62,14 +62,26 @@ theorem C09_model_verdict_ok (D : List Dir) (ls ls' : List Line) (h : StablePerm
     exact siteMiddleware_sublist _ _ 0 0 D
   simp [verdict, heq, hcan]
 
-theorem C09_group_model_verdict_ok (ls ls' : List Line) (h : StablePerm ls ls') (dirs : List Dir) :
-    groupVerdict dirs (parseLines ls) (parseLines ls') = "ok" := by
+theorem C09_group_model_verdict_ok (ls ls' : List Line) (h : StablePerm ls ls') :
+    groupVerdict (ls.map (·.dir)) (parseLines ls) (parseLines ls') = "ok" := by
   have hall : ∀ l : List Dir, groupsEqual l (parseLines ls) (parseLines ls') = true := by
     intro l
     simp only [groupsEqual, List.all_eq_true]
     intro d _
     simp [C09_group_stable_perm ls ls' h d]
-  simp [groupVerdict, hall]
+  have hmem : ∀ d, (tokensOf (parseLines ls) d).isSome = true → d ∈ ls.map (·.dir) := by
+    intro d hd
+    rw [tokensOf_parseLines] at hd
+    by_cases hf : (ls.filter fun l => l.dir == d) = []
+    · simp [hf] at hd
+    · obtain ⟨l, hl⟩ := List.exists_mem_of_ne_nil _ hf
+      rw [List.mem_filter] at hl
+      exact List.mem_map.mpr ⟨l, hl.1, by simpa using hl.2⟩
+  simp only [groupVerdict, hall, Bool.and_self, if_true]
+  by_cases hp : (tokensOf (parseLines ls) "!parse-error").isSome = true
+  · have := hmem _ hp
+    simp [hp, this]
+  · simp [hp]
 
 /-- test (non-vacuity): a reordering that moves `rewrite` lines behind `basicauth` and `gzip` in
 front of both is stable; the chain is the same and in list order -/
@@ -92,7 +104,7 @@ theorem stablePerm_sound (ls ls' : List Line) (h : StablePerm ls ls') : stablePe
 
 /-- the judge is not vacuous: a loader that nested handlers in file order is rejected -/
 example : verdict Casket.Generated.directives ["basicauth", "rewrite"] ["rewrite", "basicauth"] true
-    = "bad:chain-differs:reordering the lines changed the handler nesting" := by decide
+    = "bad:chain-differs:reordering the lines changed the handler nesting (or whether the block loads)" := by decide
 example : verdict Casket.Generated.directives ["basicauth", "rewrite"] ["basicauth", "rewrite"] true
     = "bad:not-list-order:handler nesting does not follow the directive list" := by decide
 
